@@ -37,6 +37,9 @@ EXTENDS Evm, FeeMarket
 (*   blooms    per counted tx: bloom (set of bit positions) of its receipt *)
 (***************************************************************************)
 
+\* basic validation refuses gas limits below 21000 - 1 (overridden with a small number in the exhaustive model)
+MinGasLimit == 20999
+
 EffPrice(t, baseFee) == IF t.type = 2 THEN Min(t.tip + baseFee, t.price) ELSE t.price
 
 Floor(S) == Max(S.baseFee, S.minGP)
@@ -47,7 +50,7 @@ EthAnteReject(S, t) ==
   \/ t.chain # "ok"                 \* unprotected or signed for another chain id
   \/ t.signer # t.from              \* signature does not recover to the declared sender
   \/ t.tamper # "none"              \* payload or signature altered after signing
-  \/ t.gas < 20999                  \* basic validation
+  \/ t.gas < MinGasLimit            \* basic validation
   \/ (t.type = 2 /\ t.tip > t.price)
   \/ Code(w, t.from) # "none"       \* sender is a contract
   \/ ~Ex(w, t.from)                 \* fee payer account does not exist
